@@ -16,4 +16,4 @@ ASSUMPTIONS = ["std/ignore/threadpool/env_logger behave as documented",
 
 
 def run(ctx):
-    return [r_cli.rule_fs(ctx, "C13"), r_cli.rule_exit(ctx, "C13"), r_cli.rule_atomic(ctx, "C13"), r_cli.rule_err_status(ctx, "C13"), r_cli.rule_nodiff(ctx, "C13"), r_cli.rule_verify_wiring(ctx, "C13"), r_diff.rule_none(ctx, "C13"), r_diff.rule_args(ctx, "C13"), r_cli.rule_check_verdict(ctx, "C13"), r_cli.rule_logger_filter(ctx, "C13")]
+    return [r_cli.rule_fs(ctx, "C13"), r_cli.rule_exit(ctx, "C13"), r_cli.rule_atomic(ctx, "C13"), r_cli.rule_err_status(ctx, "C13"), r_cli.rule_nodiff(ctx, "C13"), r_cli.rule_verify_wiring(ctx, "C13"), r_diff.rule_none(ctx, "C13"), r_diff.rule_args(ctx, "C13"), r_cli.rule_check_verdict(ctx, "C13"), r_cli.rule_exact_read(ctx, "C13")]
